@@ -90,7 +90,7 @@ pub fn build(
     };
 
     let mut fields: Vec<(String, isize)> = vec![];
-    let mut last_field = 0;
+    let mut last_field = Some(0isize);
     let mut default_index = None;
     for statement in &definition.statements {
         let grammar::EnumStatement {
@@ -103,7 +103,9 @@ pub fn build(
             Some(_) => anyhow::bail!(
                 "unsupported enum value for case `{name}` of enum `{resolvee_path}`: {expr:?}"
             ),
-            None => last_field,
+            None => last_field.with_context(|| {
+                format!("the implicit value for case `{name}` of enum `{resolvee_path}` overflows")
+            })?,
         };
         fields.push((name.0.clone(), value));
 
@@ -119,7 +121,7 @@ pub fn build(
             }
         }
 
-        last_field = value + 1;
+        last_field = value.checked_add(1);
     }
 
     let mut singleton = None;
